@@ -1019,3 +1019,297 @@ Proof.
   destruct (history_inv states m base last Hfeq Hm Hbase Hwfs Hlast) as [Hf Hn].
   apply get_state_lookup; assumption.
 Qed.
+
+(* ------------------------------------------------------------------ *)
+(* T6: unflatten inverts flatten exactly (order included)               *)
+
+Section AssocFresh.
+  Context {K V : Type} (keq : K -> K -> bool).
+  Hypothesis keq_spec : forall a b, keq a b = true <-> a = b.
+
+  Lemma aset_fresh (d : list (K * V)) (k : K) (v : V) :
+    ~ In k (map fst d) -> aset keq d k v = d ++ [(k, v)].
+  Proof.
+    induction d as [|[a b] d IH]; cbn [map fst In aset app]; intros Hn; [reflexivity|].
+    rewrite (keq_neq_false keq keq_spec a k).
+    - rewrite IH; [reflexivity|]. intros Hin. apply Hn. right. exact Hin.
+    - intros Heq. apply Hn. left. exact Heq.
+  Qed.
+
+  Lemma aset_snoc_same (d : list (K * V)) (k : K) (v v' : V) :
+    ~ In k (map fst d) -> aset keq (d ++ [(k, v)]) k v' = d ++ [(k, v')].
+  Proof.
+    induction d as [|[a b] d IH]; cbn [map fst In aset app]; intros Hn.
+    - rewrite (keq_refl keq keq_spec). reflexivity.
+    - rewrite (keq_neq_false keq keq_spec a k).
+      + rewrite IH; [reflexivity|]. intros Hin. apply Hn. right. exact Hin.
+      + intros Heq. apply Hn. left. exact Heq.
+  Qed.
+
+  Lemma aget_snoc_same (d : list (K * V)) (k : K) (v : V) :
+    ~ In k (map fst d) -> aget keq (d ++ [(k, v)]) k = Some v.
+  Proof.
+    intros Hn. rewrite aget_app. rewrite (aget_notin keq keq_spec d k Hn).
+    cbn [aget]. rewrite (keq_refl keq keq_spec). reflexivity.
+  Qed.
+
+  Lemma aupdate_fresh (e d : list (K * V)) :
+    NoDup (map fst e) ->
+    (forall k, In k (map fst e) -> ~ In k (map fst d)) ->
+    aupdate keq d e = d ++ e.
+  Proof.
+    unfold aupdate. revert d.
+    induction e as [|[a b] e IH]; intros d Hnd Hdisj; cbn [fold_left fst snd].
+    - rewrite app_nil_r. reflexivity.
+    - cbn [map fst] in Hnd, Hdisj. inversion Hnd as [|x l Hnotin Hnd']; subst.
+      rewrite aset_fresh; [|apply Hdisj; left; reflexivity].
+      rewrite IH.
+      + rewrite <- app_assoc. reflexivity.
+      + exact Hnd'.
+      + intros k Hk Hin. rewrite map_app in Hin. apply in_app_or in Hin.
+        destruct Hin as [Hin|Hin].
+        * apply (Hdisj k); [right; exact Hk | exact Hin].
+        * cbn in Hin. destruct Hin as [Hin|[]]. subst a. contradiction.
+  Qed.
+End AssocFresh.
+
+Definition pcons (k : nat) (e : path * value) : path * value := (k :: fst e, snd e).
+Definition pre (lin : path) (e : path * value) : path * value := (lin ++ fst e, snd e).
+
+Lemma pcons_pair (k : nat) (p : path) (y : value) : pcons k (p, y) = (k :: p, y).
+Proof. reflexivity. Qed.
+
+Definition fcat (lin : path) (l : list (nat * value)) : flatmap :=
+  flat_map (fun kv => flatten (snd kv) (lin ++ [fst kv])) l.
+
+Definition fcat0 (l : list (nat * value)) : flatmap :=
+  flat_map (fun kv => map (pcons (fst kv)) (flatten (snd kv) [])) l.
+
+Lemma flatten_key_strip (x : value) (lin : path) (k : nat) (p : path) :
+  wf x = true -> In p (map fst (flatten x (lin ++ [k]))) ->
+  exists q, strip lin p = Some (k :: q).
+Proof.
+  intros Hwf Hin. apply (in_keys_aget path_eqb path_eqb_spec) in Hin.
+  destruct Hin as [y Hy]. rewrite (flatten_get_gen x Hwf) in Hy.
+  rewrite strip_snoc in Hy.
+  destruct (strip lin p) as [[|k0 q]|]; try discriminate Hy.
+  destruct (Nat.eqb k k0) eqn:E; [|discriminate Hy].
+  apply Nat.eqb_eq in E. subst k0. exists q. reflexivity.
+Qed.
+
+Lemma fgo_cat (lin : path) :
+  forall l acc,
+    keys_nodup (map fst l) = true ->
+    Forall (fun kv => wf (snd kv) = true) l ->
+    (forall p k0 q, In p (map fst acc) -> strip lin p = Some (k0 :: q) -> ~ In k0 (map fst l)) ->
+    fgo lin l acc = acc ++ fcat lin l.
+Proof.
+  induction l as [|[k x] l IH]; intros acc Hk Hw Hacc.
+  - rewrite fgo_nil. cbn. rewrite app_nil_r. reflexivity.
+  - rewrite fgo_cons.
+    cbn [map fst] in Hk. apply keys_nodup_cons in Hk. destruct Hk as [Hk1 Hk2].
+    inversion Hw as [|a1 l1 Hw1 Hw2]; subst. cbn [snd] in Hw1.
+    rewrite (aupdate_fresh path_eqb path_eqb_spec).
+    + rewrite IH.
+      * unfold fcat. cbn [flat_map fst snd]. rewrite <- app_assoc. reflexivity.
+      * exact Hk2.
+      * exact Hw2.
+      * intros p k0 q Hin Hs. rewrite map_app in Hin. apply in_app_or in Hin.
+        destruct Hin as [Hin|Hin].
+        -- intros Hin0. apply (Hacc p k0 q Hin Hs). right. exact Hin0.
+        -- destruct (flatten_key_strip x lin k p Hw1 Hin) as [q' Hq'].
+           rewrite Hq' in Hs. inversion Hs; subst. exact Hk1.
+    + apply flatten_knodup_gen.
+    + intros p Hin Hin'.
+      destruct (flatten_key_strip x lin k p Hw1 Hin) as [q' Hq'].
+      apply (Hacc p k q' Hin' Hq'). left. reflexivity.
+Qed.
+
+Lemma flatten_dict_fcat (kv : nat * value) (kvs : list (nat * value)) (lin : path) :
+  wf (VDict (kv :: kvs)) = true ->
+  flatten (VDict (kv :: kvs)) lin = fcat lin (kv :: kvs).
+Proof.
+  intros Hwf. apply wf_dict in Hwf. destruct Hwf as [Hk Hw].
+  rewrite flatten_dict. rewrite (fgo_cat lin _ [] Hk Hw); [reflexivity|].
+  intros p k0 q [].
+Qed.
+
+Lemma flatten_prefix (v : value) :
+  wf v = true -> forall lin, flatten v lin = map (pre lin) (flatten v []).
+Proof.
+  induction v as [t|kvs IHkvs] using value_ind'; intros Hwf lin.
+  - cbn. unfold pre. cbn. rewrite app_nil_r. reflexivity.
+  - destruct kvs as [|kv kvs].
+    + cbn. unfold pre. cbn. rewrite app_nil_r. reflexivity.
+    + rewrite !(flatten_dict_fcat kv kvs) by exact Hwf.
+      apply wf_dict in Hwf. destruct Hwf as [_ Hw].
+      revert Hw IHkvs. generalize (kv :: kvs). intros l.
+      induction l as [|[k x] l IHl]; intros Hw Hih; [reflexivity|].
+      inversion Hw as [|a1 l1 Hw1 Hw2]; subst.
+      inversion Hih as [|a2 l2 Hih1 Hih2]; subst.
+      cbn [snd] in Hw1, Hih1.
+      unfold fcat in *. cbn [flat_map fst snd]. rewrite map_app.
+      rewrite (IHl Hw2 Hih2). f_equal.
+      rewrite (Hih1 Hw1 (lin ++ [k])). rewrite (Hih1 Hw1 ([] ++ [k])).
+      rewrite map_map. apply map_ext. intros [q y]. unfold pre. cbn [fst snd app].
+      rewrite <- app_assoc. reflexivity.
+Qed.
+
+Lemma flatten_dict_fcat0 (kv : nat * value) (kvs : list (nat * value)) :
+  wf (VDict (kv :: kvs)) = true ->
+  flatten (VDict (kv :: kvs)) [] = fcat0 (kv :: kvs).
+Proof.
+  intros Hwf. rewrite (flatten_dict_fcat kv kvs [] Hwf).
+  apply wf_dict in Hwf. destruct Hwf as [_ Hw].
+  revert Hw. generalize (kv :: kvs). intros l.
+  induction l as [|[k x] l IHl]; intros Hw; [reflexivity|].
+  inversion Hw as [|a1 l1 Hw1 Hw2]; subst. cbn [snd] in Hw1.
+  unfold fcat, fcat0 in *. cbn [flat_map fst snd]. rewrite (IHl Hw2). f_equal.
+  rewrite (flatten_prefix x Hw1 ([] ++ [k])). reflexivity.
+Qed.
+
+Lemma block_go (k : nat) (r : flatmap) (n : list (nat * slot)) :
+  ~ In k (map fst n) ->
+  forall g2 g1,
+    knodup (g1 ++ g2) -> (forall p y, In (p, y) g2 -> p <> []) ->
+    uf_pass1 (map (pcons k) g2 ++ r) (n ++ [(k, SGroup g1)]) =
+    uf_pass1 r (n ++ [(k, SGroup (g1 ++ g2))]).
+Proof.
+  intros Hk. induction g2 as [|[p y] g2 IH]; intros g1 Hnd Hne.
+  - cbn [map app]. rewrite app_nil_r. reflexivity.
+  - destruct p as [|a s].
+    { exfalso. apply (Hne [] y); [left; reflexivity | reflexivity]. }
+    cbn [map app]. rewrite pcons_pair, uf_pass1_deep.
+    rewrite (aget_snoc_same Nat.eqb nat_eqb_spec n k _ Hk).
+    rewrite (aset_snoc_same Nat.eqb nat_eqb_spec n k _ _ Hk).
+    assert (Hfresh : ~ In (a :: s) (map fst g1)).
+    { unfold knodup in Hnd. rewrite map_app in Hnd. cbn [map fst] in Hnd.
+      apply NoDup_remove_2 in Hnd. intros Hin. apply Hnd. apply in_or_app. left. exact Hin. }
+    rewrite (aset_fresh path_eqb path_eqb_spec g1 (a :: s) y Hfresh).
+    etransitivity.
+    { apply IH.
+      - rewrite <- app_assoc. exact Hnd.
+      - intros p' y' Hin. apply (Hne p' y'). right. exact Hin. }
+    rewrite <- app_assoc. reflexivity.
+Qed.
+
+Lemma pass1_block (k : nat) (r : flatmap) (n : list (nat * slot)) (g : flatmap) :
+  ~ In k (map fst n) -> g <> [] -> knodup g -> (forall p y, In (p, y) g -> p <> []) ->
+  uf_pass1 (map (pcons k) g ++ r) n = uf_pass1 r (n ++ [(k, SGroup g)]).
+Proof.
+  intros Hk Hne Hnd Hpaths.
+  destruct g as [|[p y] g]; [contradiction Hne; reflexivity|].
+  destruct p as [|a s].
+  { exfalso. apply (Hpaths [] y); [left; reflexivity | reflexivity]. }
+  cbn [map app]. rewrite pcons_pair, uf_pass1_deep.
+  rewrite (aget_notin Nat.eqb nat_eqb_spec n k Hk).
+  rewrite (aset_fresh Nat.eqb nat_eqb_spec n k _ Hk).
+  apply (block_go k r n Hk g [(a :: s, y)]).
+  - exact Hnd.
+  - intros p' y' Hin. apply (Hpaths p' y'). right. exact Hin.
+Qed.
+
+Definition slot_of (x : value) : slot :=
+  match x with
+  | VLeaf _ => SVal x
+  | VDict [] => SVal x
+  | VDict _ => SGroup (flatten x [])
+  end.
+
+Lemma pass1_fcat0 :
+  forall l n,
+    keys_nodup (map fst l) = true ->
+    Forall (fun kv => wf (snd kv) = true) l ->
+    (forall k, In k (map fst l) -> ~ In k (map fst n)) ->
+    uf_pass1 (fcat0 l) n = P1Nested (n ++ map (fun kv => (fst kv, slot_of (snd kv))) l).
+Proof.
+  induction l as [|[k x] l IH]; intros n Hk Hw Hdisj.
+  - cbn. rewrite app_nil_r. reflexivity.
+  - cbn [map fst] in Hk. apply keys_nodup_cons in Hk. destruct Hk as [Hk1 Hk2].
+    inversion Hw as [|a1 l1 Hw1 Hw2]; subst. cbn [snd] in Hw1.
+    assert (Hkn : ~ In k (map fst n)) by (apply Hdisj; left; reflexivity).
+    assert (Hdisj' : forall sl k', In k' (map fst l) -> ~ In k' (map fst (n ++ [(k, sl)]))).
+    { intros sl k' Hin' Hin. rewrite map_app in Hin. apply in_app_or in Hin.
+      destruct Hin as [Hin|Hin].
+      - apply (Hdisj k'); [right; exact Hin' | exact Hin].
+      - cbn in Hin. destruct Hin as [Hin|[]]. subst k'. contradiction. }
+    unfold fcat0. cbn [flat_map fst snd map]. fold (fcat0 l).
+    destruct x as [t|[|kv kvs]].
+    + cbn [flatten map app]. rewrite pcons_pair, uf_pass1_single.
+      rewrite (aset_fresh Nat.eqb nat_eqb_spec n k _ Hkn).
+      rewrite (IH _ Hk2 Hw2 (Hdisj' _)). rewrite <- app_assoc. reflexivity.
+    + cbn [flatten map app]. rewrite pcons_pair, uf_pass1_single.
+      rewrite (aset_fresh Nat.eqb nat_eqb_spec n k _ Hkn).
+      rewrite (IH _ Hk2 Hw2 (Hdisj' _)). rewrite <- app_assoc. reflexivity.
+    + set (x := VDict (kv :: kvs)) in *.
+      rewrite (pass1_block k (fcat0 l) n (flatten x [])).
+      * rewrite (IH _ Hk2 Hw2 (Hdisj' _)). rewrite <- app_assoc. reflexivity.
+      * exact Hkn.
+      * destruct (lookup_inhabited x) as [p [y Hpy]].
+        rewrite <- (flatten_lookup x Hw1) in Hpy.
+        intros Hnil. rewrite Hnil in Hpy. discriminate Hpy.
+      * apply flatten_knodup_gen.
+      * intros p y Hin Hp. subst p.
+        apply (In_aget path_eqb path_eqb_spec _ _ _ (flatten_knodup_gen x [])) in Hin.
+        rewrite (flatten_lookup x Hw1) in Hin. discriminate Hin.
+Qed.
+
+Lemma pass2_slots (fuel' : nat) (l : list (nat * value)) :
+  Forall (fun kv => conv fuel' (slot_of (snd kv)) = Some (snd kv)) l ->
+  pass2 fuel' (map (fun kv => (fst kv, slot_of (snd kv))) l) = Some l.
+Proof.
+  induction l as [|[k x] l IH]; intros H; [reflexivity|].
+  inversion H as [|a1 l1 H1 H2]; subst. cbn [snd] in H1.
+  cbn [map fst snd]. rewrite pass2_cons, H1, (IH H2). reflexivity.
+Qed.
+
+Lemma unflatten_flatten_gen (v : value) :
+  wf v = true ->
+  forall fuel, (forall p y, In (p, y) (flatten v []) -> length p < fuel) ->
+               unflatten fuel (flatten v []) = Some v.
+Proof.
+  induction v as [t|kvs IHkvs] using value_ind'; intros Hwf fuel Hlen.
+  - destruct fuel as [|fuel]; [|reflexivity].
+    specialize (Hlen [] (VLeaf t) (or_introl eq_refl)). cbn in Hlen. lia.
+  - destruct kvs as [|kv kvs].
+    + destruct fuel as [|fuel]; [|reflexivity].
+      specialize (Hlen [] (VDict []) (or_introl eq_refl)). cbn in Hlen. lia.
+    + assert (Hfuel : exists fuel', fuel = S fuel').
+      { destruct (lookup_inhabited (VDict (kv :: kvs))) as [p [y Hpy]].
+        rewrite <- (flatten_lookup _ Hwf) in Hpy.
+        apply (aget_In path_eqb path_eqb_spec) in Hpy.
+        specialize (Hlen _ _ Hpy).
+        destruct fuel as [|fuel']; [lia | exists fuel'; reflexivity]. }
+      destruct Hfuel as [fuel' Hfuel]. subst fuel.
+      rewrite (flatten_dict_fcat0 kv kvs Hwf) in *.
+      apply wf_dict in Hwf. destruct Hwf as [Hk Hw].
+      revert Hk Hw IHkvs Hlen. generalize (kv :: kvs). intros l Hk Hw Hih Hlen.
+      assert (Hchild : forall k x p y, In (k, x) l -> In (p, y) (flatten x []) ->
+                                       In (k :: p, y) (fcat0 l)).
+      { intros k x p y Hkx Hpy. unfold fcat0. apply in_flat_map.
+        exists (k, x). split; [exact Hkx|]. cbn [fst snd].
+        apply (in_map (pcons k)) in Hpy. exact Hpy. }
+      rewrite unflatten_S. rewrite (pass1_fcat0 l [] Hk Hw) by (intros k _ []).
+      cbn [app]. rewrite pass2_slots; [reflexivity|].
+      rewrite Forall_forall. intros [k x] Hin. cbn [snd].
+      rewrite Forall_forall in Hw, Hih.
+      pose proof (Hw _ Hin) as Hwx. pose proof (Hih _ Hin) as Hihx. cbn [snd] in Hwx, Hihx.
+      destruct x as [t|[|kv' kvs']]; try reflexivity.
+      cbn [slot_of conv]. apply (Hihx Hwx).
+      intros p y Hpy. specialize (Hlen _ _ (Hchild _ _ _ _ Hin Hpy)). cbn [length] in Hlen. lia.
+Qed.
+
+Theorem unflatten_flatten : forall v, wf v = true -> get_state (flatten v []) = Some v.
+Proof.
+  intros v Hwf. unfold get_state. apply (unflatten_flatten_gen v Hwf).
+  intros p y Hin. apply (flat_fuel_bound _ p y Hin).
+Qed.
+
+(* ------------------------------------------------------------------ *)
+Print Assumptions delta_exact.
+Print Assumptions history_exact.
+Print Assumptions flatten_lookup.
+Print Assumptions flatten_knodup.
+Print Assumptions get_state_lookup.
+Print Assumptions checkpoint_exact.
+Print Assumptions unflatten_flatten.
